@@ -234,6 +234,8 @@ def gen_items(rng, fields, depth, drop_optional=0.5):
             continue
         if f["flatten"]:
             tgt = BY_NAME[f["ty"]["name"]]
+            while tgt["kind"] == "newtype":          # a derived newtype forwards the list to what it wraps
+                tgt = BY_NAME[tgt["inner"]["name"]]
             if tgt["kind"] == "enum":
                 # an enum takes exactly one of the unclaimed items
                 one = gen_enum_inner(rng, tgt, depth + 1)
